@@ -197,13 +197,66 @@ def make_lf(spec):
     from cogent3 import get_model, make_tree
 
     tree = make_tree(spec["tree"])
-    sm = get_model(spec["model"])
-    kw = {}
     if spec.get("bins"):
-        kw["bins"] = spec["bins"]
-    lf = sm.make_likelihood_function(tree, **kw)
+        sm = get_model(spec["model"], ordered_param="rate", distribution="gamma")
+        lf = sm.make_likelihood_function(tree, bins=int(spec["bins"]))
+    else:
+        lf = get_model(spec["model"]).make_likelihood_function(tree)
     lf.set_alignment(get_aln("a", tree.get_tip_names(), spec["length"], spec["aln_seed"]))
     return lf
+
+
+def scalar_params(lf):
+    """(name, has an edge dimension) of the numeric input parameters"""
+    out = []
+    for par in lf.get_param_names():
+        defn = lf.defn_for[par]
+        if getattr(defn, "numeric", False) and hasattr(defn, "get_param_rules"):
+            out.append((par, "edge" in defn.valid_dimensions))
+    return out
+
+
+def pvalue(lf, par, e):
+    return float(lf.get_param_value(par, edge=e) if e is not None else lf.get_param_value(par))
+
+
+def param_table(lf, edges):
+    """every parameter value of the function: scalars by edge, plus the probability vectors"""
+    import numpy
+
+    tab = {}
+    for par, has_edge in scalar_params(lf):
+        for e in (edges if has_edge else [None]):
+            tab[f"{par}|{e}"] = pvalue(lf, par, e)
+    for par in lf.get_param_names():
+        defn = lf.defn_for[par]
+        if not getattr(defn, "numeric", False) and hasattr(defn, "get_param_rules"):
+            v = numpy.asarray(lf.get_param_value(par), dtype=float).ravel()
+            for i, x in enumerate(v):
+                tab[f"{par}#{i}"] = float(x)
+    return tab
+
+
+def rules_summary(rules):
+    """per exported rule: [par, is_constant, keys present, init==0, init==lower, init==upper, const value==0]"""
+    import numpy
+
+    out = []
+    for r in rules:
+        const = bool(r.get("is_constant", False))
+        keys = ["value" in r, const, "init" in r, r.get("lower") is not None, r.get("upper") is not None]
+        init = r.get("init")
+        scalar = init is not None and numpy.ndim(init) == 0 and not isinstance(init, dict)
+        val = r.get("value")
+        vscalar = val is not None and numpy.ndim(val) == 0 and not isinstance(val, dict)
+        vec = init if isinstance(init, dict) else val if isinstance(val, dict) else None
+        out.append([r["par_name"], const, keys,
+                    bool(scalar and float(init) == 0.0),
+                    bool(scalar and r.get("lower") is not None and float(init) == float(r["lower"])),
+                    bool(scalar and r.get("upper") is not None and float(init) == float(r["upper"])),
+                    bool(vscalar and float(val) == 0.0),
+                    bool(vec is not None and any(float(x) == 0.0 for x in vec.values()))])
+    return out
 
 
 def apply_setting(lf, s):
@@ -226,21 +279,20 @@ def apply_setting(lf, s):
 class Settings:
     """the FINAL settings a history leaves behind, tracked by the harness itself (not read from the
     function under test, except the values an optimiser session left): per parameter and edge
-    (group id, value, is_constant) — edges with the same group id share one parameter."""
+    (group id, value, is_constant) — edges with the same group id share one parameter.
+    Parameters without an edge dimension are tracked under the pseudo-edge None."""
 
     def __init__(self, spec):
         lf = make_lf(spec)
         self.edges = [e.name for e in lf.tree.get_edge_vector(include_root=False)]
         self.par = {}
         self.gid = 0
-        for par in lf.get_param_names():
-            if par == "mprobs":
-                continue
+        for par, has_edge in scalar_params(lf):
             self.par[par] = {}
             shared = self._new()
-            for e in self.edges:
+            for e in (self.edges if has_edge else [None]):
                 g = self._new() if par == "length" else shared
-                self.par[par][e] = [g, float(lf.get_param_value(par, edge=e)), False]
+                self.par[par][e] = [g, pvalue(lf, par, e), False]
         self.touched = set()
         self.other = {}
 
@@ -253,8 +305,9 @@ class Settings:
             self.other[s["what"]] = s
             return
         par = s["par"]
+        assert par in self.par, par
         self.touched.add(par)
-        E = s.get("edges") or self.edges
+        E = s.get("edges") or list(self.par[par])
         g = self._new()
         for e in E:
             if s.get("const"):
@@ -265,10 +318,14 @@ class Settings:
                 self.par[par][e] = [g, s["value"], False]
 
     def after_calc(self, lf):
+        import numpy
+
+        if "bprobs" in lf.get_param_names():
+            self.other["bprobs"] = numpy.array(lf.get_param_value("bprobs"), dtype=float)
         for par, d in self.par.items():
             for e, rec in d.items():
                 if not rec[2]:
-                    v = float(lf.get_param_value(par, edge=e))
+                    v = pvalue(lf, par, e)
                     if v != rec[1]:
                         self.touched.add(par)
                     rec[1] = v
@@ -280,15 +337,37 @@ class Settings:
             apply_setting(lf, self.other["aln"])
         if "mprobs" in self.other:
             apply_setting(lf, self.other["mprobs"])
+        if "bprobs" in self.other:
+            lf.set_param_rule("bprobs", init=self.other["bprobs"].copy())
         for par in sorted(self.touched):
             groups = {}
-            for e in self.edges:
+            for e in self.par[par]:
                 g, v, c = self.par[par][e]
                 groups.setdefault(g, [[], v, c])[0].append(e)
             for g in sorted(groups):
                 E, v, c = groups[g]
-                apply_setting(lf, dict(what="par", par=par, edges=E, value=v, const=c, indep=len(E) == 1))
+                apply_setting(lf, dict(what="par", par=par, edges=None if E == [None] else E, value=v, const=c, indep=False))
         return lf
+
+
+def roundtrip(spec, lf, st):
+    """export the rules, apply them to a newly made function, compare lnL, nfp and EVERY parameter value"""
+    new = make_lf(spec)
+    if "aln" in st.other:
+        apply_setting(new, st.other["aln"])
+    rules = lf.get_param_rules()
+    new.apply_param_rules(rules)
+    a, b = param_table(lf, st.edges), param_table(new, st.edges)
+    worst, which = 0.0, None
+    for k in sorted(set(a) | set(b)):
+        if k not in a or k not in b:
+            worst, which = float("inf"), [k, a.get(k), b.get(k)]
+            break
+        d = abs(a[k] - b[k]) / max(1.0, abs(a[k]))
+        if d > worst:
+            worst, which = d, [k, a[k], b[k]]
+    return dict(lnL=float(new.get_log_likelihood()), nfp=int(new.get_num_free_params()), worst=worst, which=which,
+                rules=rules_summary(rules), nparams=len(a))
 
 
 def run_lf(case):
@@ -305,7 +384,7 @@ def run_lf(case):
     def record(tag, extra=None):
         fr = st.build(spec)
         out.append([tag, float(lf.get_log_likelihood()), float(fr.get_log_likelihood()), int(lf.get_num_free_params()),
-                    int(fr.get_num_free_params()), extra])
+                    int(fr.get_num_free_params()), extra, roundtrip(spec, lf, st)])
 
     record("init")
     for o in ops:
@@ -326,12 +405,7 @@ def run_lf(case):
                 pass
             record("postponed-raise" if o["raises"] else "postponed")
         elif kind == "roundtrip":
-            new = make_lf(spec)
-            if "aln" in st.other:
-                apply_setting(new, st.other["aln"])
-            new.apply_param_rules(lf.get_param_rules())
-            out.append(["roundtrip", float(lf.get_log_likelihood()), float(new.get_log_likelihood()),
-                        int(lf.get_num_free_params()), int(new.get_num_free_params()), None])
+            record("roundtrip")
         elif kind == "calc":
             # an optimiser session: vectors are given as perturbations of the start
             calc = lf.make_calculator()
@@ -359,6 +433,11 @@ def run_lf(case):
                         got = calc(list(x))
                     elif how == "same":
                         got = calc(list(x))
+                    elif how == "bound":      # drive one coordinate onto its lower / upper bound
+                        i = stp[1] % n
+                        x = x.copy()
+                        x[i] = lo[i] if stp[2] == "lo" else hi[i]
+                        got = calc(list(x))
                     else:                     # "change": explicit change list incl. the undo idiom
                         i = stp[1] % n
                         x = x.copy()
@@ -374,9 +453,7 @@ def run_lf(case):
                             worst, detail = err, [what, how, float(a), float(b)]
                 lf.update_from_calculator(calc)
                 st.after_calc(lf)
-            fr = st.build(spec)
-            out.append(["calc", float(lf.get_log_likelihood()), float(fr.get_log_likelihood()), int(lf.get_num_free_params()),
-                        int(fr.get_num_free_params()), dict(worst=worst, detail=detail, nsteps=nsteps, nopt=n)])
+            record("calc", dict(worst=worst, detail=detail, nsteps=nsteps, nopt=n))
     return out
 
 
